@@ -234,7 +234,12 @@ pub fn check(data: &[u8], man: &Value, opts: &[String]) -> Out {
         if let Some(ps) = man["lib"]["public.postscriptNames"].as_object() {
             for (src, prod) in ps {
                 if let Some(&gid) = gid_of.get(src) {
-                    if names.get(gid as usize).map(|s| s.as_str()) != prod.as_str() {
+                    // several glyphs may ask for one name: all but one get a numeric suffix (uniqueness is asserted above)
+                    let want = prod.as_str().unwrap_or("");
+                    let shared = ps.values().filter(|v| v.as_str() == Some(want)).count() > 1;
+                    let got = names.get(gid as usize).map(|s| s.as_str()).unwrap_or("");
+                    let suffixed = got.strip_prefix(want).and_then(|r| r.strip_prefix('.')).map(|n| !n.is_empty() && n.chars().all(|c| c.is_ascii_digit())).unwrap_or(false);
+                    if !(got == want || (shared && suffixed)) {
                         out.viol("C06", format!("glyph '{src}' should be renamed '{}' (public.postscriptNames) but post has '{}'", prod.as_str().unwrap_or(""), names.get(gid as usize).cloned().unwrap_or_default()));
                     }
                 }
@@ -524,7 +529,25 @@ pub fn check(data: &[u8], man: &Value, opts: &[String]) -> Out {
         let cubic_mode = has_cubic && !gp.composite && dcomp.is_empty();
         for m in &masters {
             let mname = m["name"].as_str().unwrap();
-            let Some(layer) = layers.get(mname) else { continue };
+            let Some(layer) = layers.get(mname) else {
+                // the glyph has no drawing at this master: the source says nothing about its advance here, but the two places the
+                // font stores it - hmtx+HVAR and the gvar phantom points - must still tell the same story (property C04)
+                if let (Some(h), Some(ivs), true) = (&hvar, &hvar_ivs, font.gvar().is_ok()) {
+                    let coords = master_loc(m);
+                    let (o, i) = match h.advance_width_mapping() {
+                        Some(Ok(map)) => vf::map_get(&map, gid).unwrap_or((0xFFFF, 0xFFFF)),
+                        _ => (0, gid as usize),
+                    };
+                    if let (Some((d, _)), Ok(inst)) = (ivs.delta(o, i, &coords), vf::instantiate(&font, gid, &gp, phantoms, &coords)) {
+                        let ph_adv = inst.phantoms[1].0 - inst.phantoms[0].0;
+                        out.stat("c04_skipped_master_evaluations", 1.0);
+                        if inst.tuples > 0 && (adv + d - ph_adv).abs() > 1.0 + 1e-6 {
+                            out.viol("C04", format!("glyph '{name}' at master {mname} {coords:?} (where it has no layer): hmtx+HVAR advance {} but the gvar phantom points give {ph_adv}", adv + d));
+                        }
+                    }
+                }
+                continue;
+            };
             let is_default = mname == default_name;
             let coords = master_loc(m);
             let inst = match vf::instantiate(&font, gid, &gp, phantoms, &coords) {
